@@ -166,8 +166,14 @@ func init() {
 			_, bad := s.Deploy(4, prog("badjump", nil), 0, "0", cgas)
 			_, rev := s.Deploy(4, prog("reverter", nil), 0, "0", cgas)
 			_, cnt := s.Deploy(4, prog("counter", nil), 1, "0", cgas)
+			_, crv := s.Deploy(4, CreateThenFailRuntime("REVERT"), 0, "0", 900000)
+			_, cin := s.Deploy(4, CreateThenFailRuntime("INVALID"), 0, "0", 900000)
 			s.End()
 			s.Begin(allHdr)
+			s.expect(!OK(s.CallC(6, crv, nil, "0", 900000)), "a child is created, then the call reverts")
+			s.expect(!OK(s.CallC(6, cin, nil, "3", 900000)), "a child is created, then the call hits an invalid opcode")
+			s.TransferTo(6, childAddr(crv, 1), "5", 0) // a plain transfer to the address of the child that was never created
+			s.TransferTo(6, childAddr(cin, 1), "5", 0)
 			s.expect(!OK(s.CallC(5, loop, nil, "0", 100000)), "out of gas")
 			s.expect(!OK(s.CallC(5, inv, nil, "5", cgas)), "invalid opcode (with value)")
 			s.expect(!OK(s.CallC(5, bad, nil, "0", cgas)), "bad jump")
